@@ -190,6 +190,12 @@ func (vm *VirtualMachine) runCodeInternal(ctx context.Context, codeToRun *compil
 	// Reset VM state for new code execution if requested
 	if resetState && vm.startCount > 1 {
 		vm.resetForNewCode()
+	} else if !resetState {
+		// Run continues the main code where the previous run stopped (REPL).
+		// Nothing on the operand stack is live between runs: drop the previous
+		// result and anything a failed run left behind, otherwise the stack
+		// grows with every run until it overflows.
+		vm.unwindStack(-1)
 	}
 
 	// Load the code to run - unified logic for both paths
